@@ -443,6 +443,7 @@ func verifConcreteInsert(t *verifTable, from, n int) verifStmt {
 //	5: t with 12 rows, a=2 and a=10 deleted (tombstones on both leaves)
 //	6: two tables t (8 rows) and u (3 rows)
 //	7: t with 16 rows (three leaves), a=13 deleted
+//	8: t with 30 rows (7 leaves)   9: t with 40 rows and u with 20 rows
 func verifPrefixStmts(sc int) []verifStmt {
 	tt := &verifTable{name: "t", cols: verifStdCols}
 	tu := &verifTable{name: "u", cols: verifStdCols}
@@ -478,13 +479,17 @@ func verifPrefixStmts(sc int) []verifStmt {
 		out = append(out, verifConcreteInsert(tt, 0, 8), verifGenCreate("u"), verifConcreteInsert(tu, 100, 3))
 	case 7:
 		out = append(out, verifConcreteInsert(tt, 0, 16), del("t", 13))
+	case 8: // 30 rows: 7 leaves under one root
+		out = append(out, verifConcreteInsert(tt, 0, 30), del("t", 17))
+	case 9: // 60 rows in two tables
+		out = append(out, verifConcreteInsert(tt, 0, 40), verifGenCreate("u"), verifConcreteInsert(tu, 100, 20))
 	default:
 		panic("unknown prefix scenario")
 	}
 	return out
 }
 
-const verifNumPrefixes = 8
+const verifNumPrefixes = 10
 
 // verifNewDB creates the data directory and database "db" and opens it with the timer off.
 func verifNewDB(cacheSize int) *storage.RelationService {
